@@ -199,6 +199,9 @@ structure Ghost where
   /-- the charge the latest insert asked for, per key; at quiescence (nothing in flight) the combined
   cost of the entries not yet reclaimed is the sum of these over the charged keys -/
   keyLatest : List (Nat × Int) := []
+  /-- lookups applied to the estimator (batches the policy worker took) since the cache was built or
+  the last served clear(): while this is 0 the estimator is that of a fresh cache -/
+  appliedSinceClear : Nat := 0
   /-- deadline (created + ttl, 0 = none) of the last effective write per key -/
   lastDeadline : List (Nat × Nat) := []
   /-- per blocked wait(): what had been removed / accepted before the call (the barrier's subject) -/
@@ -355,6 +358,12 @@ partial def stepCache (st : CacheSt) (tl : Tally) (act : String) (ans : String) 
     | some isz, some ign, some bc, some rc, some pq, some me, some mx, some sm, some vl =>
       let cfg : Cfg := { itemSize := isz, ignoreInternal := ign == 1, bufCap := bc, ringCap := rc,
                          pqCap := pq.toNat?, metricsOn := me == 1 }
+      -- C20: the cache was built with the buffer size that was asked for
+      let tl := match getNat kv "cfgbuf" with
+        | some want => if want == bc then tl else
+            (tl.divergeAt "c.init.bufcap" (toString want) (toString bc)).monitorAt "C20"
+              s!"the builder was given insert buffer size {want} but the cache was built with {bc} (setter order: late={(lookup kv "late").getD "?"})"
+        | none => tl
       ({ c := some (Cache.init cfg mx sm), g := { validator := vl } }, { tl with ok := tl.ok + 1 })
     | _, _, _, _, _, _, _, _, _ => (st, tl.badAt act)
   | "f.config" :: rest =>
@@ -726,6 +735,13 @@ partial def stepCache (st : CacheSt) (tl : Tally) (act : String) (ans : String) 
           let estTab : List (Nat × Int) := (obs.flatten.map fun t => (t.1, t.2.2))
           let est : Nat → Int := fun x => if x == key then inc else ((estTab.find? (·.1 == x)).map (·.2)).getD 0
           let obsPairs := obs.map (·.map fun t => (t.1, t.2.1))
+          -- C11 / C13: a fresh or cleared cache estimates zero for every key until lookups are applied
+          let tl := match it with
+            | .new k .. =>
+              if g.appliedSinceClear == 0 && (inc != 0 || estTab.any (fun (p : Nat × Int) => p.2 != 0)) then
+                tl.monitorAt "C11" s!"no lookup has been applied to the estimator since the cache was built or cleared, yet it estimates {inc} for key {k} (sampled residents with a non-zero estimate: {(estTab.filter (fun (p : Nat × Int) => p.2 != 0)).map (fun (p : Nat × Int) => p.1)}): the cache does not behave like a fresh one"
+              else tl
+            | _ => tl
           let (refills, errs) := match it with
             | .new _ _ cost _ _ => deriveRefills est inc (c.internalCost cost) c.lfu [] obsPairs [] []
             | _ => ([], [])
@@ -742,6 +758,16 @@ partial def stepCache (st : CacheSt) (tl : Tally) (act : String) (ans : String) 
           | some c' =>
             let cbsM := newCbs c c'
             let tl := tl.bump s!"p.item.{itemKind it}"
+            -- C07: whatever the policy released to make room (its charge is gone from the implementation's
+            -- own bookkeeping) has been evicted from the cache as well: it is not resident any more
+            let tl := match it, g.prev with
+              | .new k _ _ _ _, some p =>
+                let released := p.charges.filter fun (vk, _) => vk != k && !(snap.charges.any (·.1 == vk))
+                released.foldl (fun tl (vk, vc) =>
+                  if snap.items.any (·.1 == vk) then
+                    tl.monitorAt "C07" s!"applying the insert of key {k}, the policy released key {vk} (charged {vc}) to make room, but the entry was not evicted: it is still resident"
+                  else tl) tl
+              | _, _ => tl
             let tl := match it with
               | .new k _ _ _ _ =>
                 let R := policyAdd c.lfu est k (c.internalCost (match it with | .new _ _ cost _ _ => cost | _ => 0)) refills
@@ -807,7 +833,7 @@ partial def stepCache (st : CacheSt) (tl : Tally) (act : String) (ans : String) 
         -- resident values are dropped without callback by clear
         let g := { g with dropped := (g.prev.map residentVals).getD [] ++ g.dropped,
                           lookups := 0, dropsExpected := 0, rejectsExpected := 0, flushed := 0, lastWrite := [],
-                          ringLookups := snap.ring.length, lastDeadline := [], keyCharges := [], keyLatest := [], pressure := false,
+                          ringLookups := snap.ring.length, lastDeadline := [], keyCharges := [], keyLatest := [], pressure := false, appliedSinceClear := 0,
                           releasedG := g.waitFifo ++ g.clearFifo.take 1 ++ g.releasedG, waitFifo := [],
                           clearFifo := g.clearFifo.drop 1 }
         finishStep st tl c' "p.clear" (newCbs c c') cbsImpl snap g
@@ -883,7 +909,7 @@ partial def stepCache (st : CacheSt) (tl : Tally) (act : String) (ans : String) 
       | some (c', b), some ib =>
         let tl := tl.bump "w.items"
         let tl := if b == ib then tl else tl.divergeAt "w.items.batch" (showNatList b) batch
-        finishStep st tl c' "w.items" [] cbsImpl snap g
+        finishStep st tl c' "w.items" [] cbsImpl snap { g with appliedSinceClear := g.appliedSinceClear + ib.length }
       | _, _ => (st, tl.divergeAt "w.items" "queue empty" batch)
     | _ => (st, tl.badAt act)
   | _, _, _ => (st, tl.badAt act)
